@@ -22,7 +22,7 @@ MOD = "cmd/application"
 FILES = {"zz_verif_c02conn_test.go": "c02/conn_driver_test.go"}
 EXTRA = {"pkg/station/lib/zz_verif_c02_export.go": "c02/lib_export_conn.go",
          "pkg/transports/wrapping/obfs4/zz_verif_c02_export.go": "c02/obfs4_export_conn.go"}
-HEADER = "From CJ Require Import Common.Base C02.Model C02.ModelConn C02.Run C02.RunConn.\n"
+HEADER = "From CJ Require Import Common.Base C02.Model C02.ModelConn C02.ModelTime C02.Run C02.RunConn C02.RunTime.\n"
 TT = {"min": 1, "obfs4": 2, "prefix": 4}
 TRCODE = {"min": 0, "prefix": 1, "obfs4": 2}
 CLS = {"again": 0, "not": 1, "err_transport": 2, "err_prefix": 3, "found": 4, "err_other": 5, "found_foreign": 7}
@@ -43,6 +43,11 @@ def rhex(rng, n):
 # ------------------------------------------------------------------ generation
 def S(op, reg=-1, n=0):
     return {"op": op, "reg": reg, "n": n}
+
+
+def G(secs):
+    """secs seconds pass for every record of the case's phantoms, then the real sweep"""
+    return {"op": "age", "reg": -1, "n": secs}
 
 
 def templates(tr):
@@ -86,6 +91,19 @@ def templates(tr):
         ("second-connection-after-reregistration", [S(V, 0), S("accept"), "R", S("close"), S(X, 0), S(V, 1), S("accept"), "A", "R"], 1),
         ("second-connection-after-validation", [S(T, 0), S("accept"), "R", S("close"), S(V, 0), S("accept"), "A", "R"], 0),
         ("second-connection-same-flight-still-live", [S(V, 0), S("accept"), "R", S("close"), S("sweep"), S("accept"), "A", "R"], 0),
+        # the same registration is received AGAIN (TrackRegistration / the ingest path's TrackRegIfNotExists /
+        # AddRegistration) with time passing before and after it ("age": every clock shifted relatively + the real sweep):
+        # the lifetime counts from the ORIGINAL registration - 10 min while never used, 6 h once a connection was matched
+        ("dup-then-lifetime/unused-track", [S(V, 0), S(V, 2), G(540), S(T, 0), G(120), S("accept"), "A", "R"], None),
+        ("dup-then-lifetime/unused-ingest", [S(V, 0), G(540), S("track_ine", 0), G(120), S("accept"), "A", "R"], None),
+        ("dup-then-lifetime/unused-validate", [S(V, 0), G(540), S(V, 0), G(120), S("accept"), "A", "R"], None),
+        ("dup-then-lifetime/unused-other-object", [S(V, 0), G(540), S("track_ine", 1), S(V, 1), G(120), S("accept"), "A", "R"], None),
+        ("dup-then-lifetime/unused-resent-often", [S(V, 0), G(187), S("track_ine", 0), G(187), S(T, 0), G(187), S(V, 0), G(187), S("accept"), "A", "R"], None),
+        ("dup-then-lifetime/unused-while-open", [S(V, 0), G(540), S("accept"), "A", S("track_ine", 0), G(120), "R"], None),
+        ("dup-then-lifetime/unused-no-duplicate", [S(V, 0), G(540), G(120), S("accept"), "A", "R"], None),
+        ("dup-within-lifetime/unused", [S(V, 0), G(307), S("track_ine", 0), G(187), S("accept"), "A", "R"], 0),
+        ("dup-then-lifetime/used", [S(V, 0), S("accept"), "R", S("close"), G(540), S("track_ine", 0), S(T, 0), G(120), S("accept"), "A", "R"], 0),
+        ("dup-then-lifetime/used-six-hours", [S(V, 0), S("accept"), "R", S("close"), G(21000), S("track_ine", 0), S(V, 0), G(700), S("accept"), "A", "R"], None),
     ]
 
 
@@ -196,9 +214,15 @@ def gen_cases(ctx, table):
         conn.append(S("send", n=0))
         nops = rng.randrange(1, 8)
         ops = []
+        timed = rng.random() < 0.4
         for _ in range(nops):
             op = rng.choice(["track", "validate", "validate", "validate", "expire", "expire", "sweep", "advance"])
-            ops.append(S(op, rng.choice([0, 0, 0, 1, 2, 3])) if op in ("track", "validate", "expire") else S(op))
+            if timed:       # time passes in stretches shorter than the lifetime, registrations are received again
+                op = rng.choice(["track", "track_ine", "validate", "validate", "age", "age", "age", "sweep"])
+            if op == "age":
+                ops.append(G(rng.choice([67, 127, 187, 307, 427])))
+            else:
+                ops.append(S(op, rng.choice([0, 0, 0, 1, 2, 3])) if op in ("track", "track_ine", "validate", "expire") else S(op))
         # merge: registry operations at random positions among the connection's steps
         steps = list(conn)
         for o in ops:
@@ -223,11 +247,31 @@ class Book:
     def key(self, k):
         return (self.regs[k]["other"], self.res["ids"][k])
 
+    def sweep(self):
+        # unexpired = lifetime counted from the ORIGINAL registration: 10 min while never used, 6 h once used
+        for key in [k for k, e in self.st.items() if e[2] > (21600 if e[3] else 600)]:
+            del self.st[key]
+
+    def used(self, k):
+        e = self.st.get(self.key(k))
+        if e is not None:
+            e[3] = True
+
     def apply(self, step, sres):
         op = step["op"]
         if op == "advance":
             self.st.clear()
             return
+        if op == "age":
+            for e in self.st.values():
+                e[2] += step["n"]
+            self.sweep()
+            return
+        if op == "sweep":
+            self.sweep()
+            return
+        if op == "track_ine":
+            op = "track"
         if op not in ("track", "validate", "expire"):
             return
         k = step["reg"]
@@ -235,9 +279,9 @@ class Book:
             return
         key = self.key(k)
         if op == "track":
-            self.st.setdefault(key, [k, False])
+            self.st.setdefault(key, [k, False, 0, False])        # received again: nothing changes
         elif op == "validate":
-            e = self.st.setdefault(key, [k, False])
+            e = self.st.setdefault(key, [k, False, 0, False])
             if e[0] == k:                     # register() validates only the caller's own object
                 e[1] = True
         else:
@@ -299,6 +343,8 @@ def oracle(ctx, gc, res):
             elif tr == "prefix" and stream.get("prefix_id") is not None and stream["prefix_id"] != regs[j]["prefix_id"]:
                 bad("conn:accept-wrong-prefix", "flight sent under prefix id %d opened a tunnel to a registration of prefix id %d"
                     % (stream["prefix_id"], regs[j]["prefix_id"]))
+        if step["op"] in ("send", "close") and sres["tunnel"] >= 0:
+            book.used(sres["tunnel"])          # a connection was matched to it: from now on the active lifetime
         book.apply(step, sres)
     total = sum(res["tunnels"])
     if total != sum(len(o) for o in opened) or any(len(o) > 1 for o in opened):
@@ -328,17 +374,23 @@ def emit(ci, gc, res, nkeys):
         return "(R %s %s %s)" % (gN(k + 1), gN(TT[r["transport"]]), prm)
 
     evs = []             # (connection index or None for registry operations, term)
+    # histories in which time passes in stretches ("age") go through the timed registry of ModelTime.v: what a sweep
+    # removes is decided by the model's own timeout records (RunTime.flat_x)
+    timed = any(st["op"] == "age" for st in case["steps"])
+
+    def key_of(k):
+        return gN(1 if regs[k]["other"] else 0), hexs(bytes.fromhex(res["ids"][k]))
     off = 0
     conn = -1
     hs_true = set()
     for step, sres in zip(case["steps"], res["steps"]):
         op = step["op"]
         k = step["reg"]
-        if op in ("track", "validate", "expire"):
+        if op in ("track", "track_ine", "validate", "expire"):
             if k < 0 or k >= len(regs) or res["obj_err"][k] or sres.get("note") == "noobj" or not res["ids"][k]:
                 continue
-            ph, ident = gN(1 if regs[k]["other"] else 0), hexs(bytes.fromhex(res["ids"][k]))
-            if op == "track":
+            ph, ident = key_of(k)
+            if op in ("track", "track_ine"):
                 evs.append((None, "XReg (Track %s %s %s)" % (ph, ident, reg_term(k))))
             elif op == "validate":
                 evs.append((None, "XReg (Validate %s %s %s)" % (ph, ident, reg_term(k))))
@@ -348,6 +400,9 @@ def emit(ci, gc, res, nkeys):
             evs.append((None, "XReg Sweep"))
         elif op == "advance":
             evs.append((None, "XReg ExpireAll"))
+        elif op == "age":
+            evs.append((None, "TT (TAge %s)" % gN(step["n"])))
+            evs.append((None, "TT TSweep"))
         elif op == "accept":
             if sres.get("note"):
                 continue
@@ -388,6 +443,22 @@ def emit(ci, gc, res, nkeys):
             if sres["tunnel"] >= 0:     # a tunnel nothing announced
                 evs.append((conn, "XRead (@nil N) (@nil ocall) %s" % gN(sres["tunnel"] + 1)))
             evs.append((conn, "XErr"))
+        if timed and op in ("send", "close") and sres["tunnel"] >= 0 and res["ids"][sres["tunnel"]]:
+            # the handler marks the matched registration active (the replay checks that the tunnel observed is the
+            # registration the model is matched to)
+            evs.append((None, "TT (TUse %s %s)" % key_of(sres["tunnel"])))
+    if timed:
+        def tw(t):
+            if t.startswith("TT "):
+                return t
+            if t == "XReg Sweep":
+                return "TT TSweep"
+            if t == "XReg ExpireAll":
+                return "TT (TAge 25200); TT TSweep"
+            if t.startswith("XReg "):
+                return "TT (TO %s)" % t[5:]
+            return "TX (%s)" % t
+        evs = [(c_, tw(t)) for (c_, t) in evs]
     rt = "[" + "; ".join("(%s, %s, %s)" % (gN(e["key"]), gN(e["off"]), ("Some %s" % hexs(bytes.fromhex(e["id"]))) if e["id"] in ids else "G")
                          for e in (res["reveals"] or [])) + "]" if res["reveals"] else "(@nil (N * N * option bytes))"
     marks = {}          # per identifier: objects that share a secret share the identifier, the mark and the handshake keys
@@ -403,7 +474,7 @@ def emit(ci, gc, res, nkeys):
     terms = []
     for cn in range(max(conn, 0) + 1):
         mine = [t for (c_, t) in evs if c_ is None or c_ == cn]
-        terms.append("(ctbl, %s, 0, %s, %s, %s, [%s])" % (gN(nkeys), rt, mt, sname, ";\n   ".join(mine)))
+        terms.append("(ctbl, %s, 0, %s, %s, %s, %s[%s]%s)" % (gN(nkeys), rt, mt, sname, "(flat_x " if timed else "", ";\n   ".join(mine), ")" if timed else ""))
     return defs, terms
 
 
@@ -503,7 +574,10 @@ def run_lane(ctx, table_hint=None):
             ctx.sample({"lane": "connection", "class": gc["class"], "transport": gc["transport"],
                         "steps": [(s["op"], s["reg"], s["n"]) for s in gc["case"]["steps"]],
                         "observed": [(s["op"], s["tunnel"], [(c["t"], c["res"]) for c in s["calls"]]) for s in r["steps"] if s["op"] == "send"]})
-    ctx.require_kinds(REQUIRED)
+    for base in ("unused", "used"):      # aggregate kinds of the duplicate-then-lifetime classes
+        hist["conn/dup-then-lifetime/" + base] = sum(v for k_, v in hist.items() if k_.startswith("conn/dup-then-lifetime/" + base + "-") or
+                                                     k_.startswith("conn/dup-then-lifetime/" + base + "/"))
+    ctx.require_kinds(REQUIRED + ["conn/dup-then-lifetime/unused", "conn/dup-then-lifetime/used"])
     import os
     dname = "defs_C02_conn_%d" % os.getpid()
     rc, o3 = ctx.coq_eval(dname, HEADER + "\n".join(defs) + "\n")
